@@ -287,7 +287,16 @@ func makeStringArshaler(t reflect.Type) *arshaler {
 					}
 					return nil
 				}
+				quoted := val
 				val, err = jsontext.AppendUnquote(nil, val)
+				if err != nil && uo.Flags.Get(jsonflags.AllowInvalidUTF8) {
+					// Invalid UTF-8 within an otherwise valid string
+					// has already been replaced with utf8.RuneError.
+					var flags jsonwire.ValueFlags
+					if n, err2 := jsonwire.ConsumeString(&flags, quoted, false); err2 == nil && n == len(quoted) {
+						err = nil
+					}
+				}
 				if err != nil {
 					return newUnmarshalErrorAfter(dec, t, err)
 				}
